@@ -20,24 +20,13 @@ pub fn string_literals_from_ident<'a>(
   ident: &Identifier,
 ) -> Vec<&'a Type2<'a>> {
   let mut literals = Vec::new();
-  for r in cddl.rules.iter() {
-    if let Rule::Type { rule, .. } = r {
-      if rule.name == *ident {
-        for tc in rule.value.type_choices.iter() {
-          match &tc.type1.type2 {
-            t @ Type2::TextValue { .. }
-            | t @ Type2::UTF8ByteString { .. }
-            | t @ Type2::B16ByteString { .. }
-            | t @ Type2::B64ByteString { .. } => literals.push(t),
-            Type2::Typename { ident, .. } => {
-              literals.append(&mut string_literals_from_ident(cddl, ident))
-            }
-            _ => continue,
-          }
-        }
-      }
-    }
-  }
+  collect_literals_from_ident(
+    cddl,
+    ident,
+    &is_string_literal,
+    &mut Vec::new(),
+    &mut literals,
+  );
 
   literals
 }
@@ -46,25 +35,63 @@ pub fn string_literals_from_ident<'a>(
 /// proposed .cat control operator.
 pub fn numeric_values_from_ident<'a>(cddl: &'a CDDL<'a>, ident: &Identifier) -> Vec<&'a Type2<'a>> {
   let mut literals = Vec::new();
-  for r in cddl.rules.iter() {
+  collect_literals_from_ident(
+    cddl,
+    ident,
+    &is_numeric_literal,
+    &mut Vec::new(),
+    &mut literals,
+  );
+
+  literals
+}
+
+fn is_string_literal(t2: &Type2) -> bool {
+  matches!(
+    t2,
+    Type2::TextValue { .. }
+      | Type2::UTF8ByteString { .. }
+      | Type2::B16ByteString { .. }
+      | Type2::B64ByteString { .. }
+  )
+}
+
+fn is_numeric_literal(t2: &Type2) -> bool {
+  matches!(
+    t2,
+    Type2::IntValue { .. } | Type2::UintValue { .. } | Type2::FloatValue { .. }
+  )
+}
+
+/// Collect, in document order, the literals selected by `is_literal` among the
+/// type choices of every rule named `ident`, following type names. `open`
+/// holds the indexes of the rules being expanded: a rule that is reached again
+/// while it is still open contributes nothing, so cyclic rule references
+/// (`a = b`, `b = a`) terminate.
+fn collect_literals_from_ident<'a>(
+  cddl: &'a CDDL<'a>,
+  ident: &Identifier,
+  is_literal: &dyn Fn(&Type2) -> bool,
+  open: &mut Vec<usize>,
+  literals: &mut Vec<&'a Type2<'a>>,
+) {
+  for (idx, r) in cddl.rules.iter().enumerate() {
     if let Rule::Type { rule, .. } = r {
-      if rule.name == *ident {
+      if rule.name == *ident && !open.contains(&idx) {
+        open.push(idx);
         for tc in rule.value.type_choices.iter() {
           match &tc.type1.type2 {
-            t @ Type2::IntValue { .. }
-            | t @ Type2::UintValue { .. }
-            | t @ Type2::FloatValue { .. } => literals.push(t),
+            t if is_literal(t) => literals.push(t),
             Type2::Typename { ident, .. } => {
-              literals.append(&mut numeric_values_from_ident(cddl, ident))
+              collect_literals_from_ident(cddl, ident, is_literal, open, literals)
             }
             _ => continue,
           }
         }
+        open.pop();
       }
     }
   }
-
-  literals
 }
 
 #[cfg(feature = "additional-controls")]
